@@ -321,7 +321,10 @@ struct V : RecursiveASTVisitor<V> {
         Conv cv(C);
         std::string id = cv.mangled(D);
         if (!seenF.insert(id).second) return true;
-        json::Object o{{"name", D->getQualifiedNameAsString()}, {"id", id}, {"file", cv.file(D->getLocation())}, {"line", cv.line(D->getLocation())},
+        // an instantiated member defined out of line reports the in-class declaration as its location: take the file (and line) of the body instead
+        SourceLocation DL = D->getLocation();
+        if (D->getBody() && cv.file(D->getBody()->getBeginLoc()) != cv.file(DL)) DL = D->getBody()->getBeginLoc();
+        json::Object o{{"name", D->getQualifiedNameAsString()}, {"id", id}, {"file", cv.file(DL)}, {"line", cv.line(DL)},
                        {"eline", cv.line(D->getEndLoc())}, {"ret", cv.ty(D->getReturnType())}};
         json::Array ps;
         for (auto * P : D->parameters()) ps.push_back(json::Object{{"n", P->getNameAsString()}, {"t", cv.ty(P->getType())}});
